@@ -124,6 +124,11 @@ pub struct Obs {
     pub errs: Vec<(usize, usize)>,
     /// anomalies seen by the observer itself (span not on boundary, slice mismatch, panic ...)
     pub anomalies: Vec<String>,
+    /// item counts (always filled)
+    #[serde(default)]
+    pub n_ok: usize,
+    #[serde(default)]
+    pub n_err: usize,
     /// read trace: (attempt start | usize::MAX marker) encoded as (kind, a, b)
     #[serde(default, skip_serializing_if = "Vec::is_empty")]
     pub trace: Vec<(u8, usize, usize)>,
@@ -135,6 +140,8 @@ pub struct Mode {
     pub trace: bool,
     /// stop after this many next() calls (0 = until None, bounded by 2*len+4)
     pub max_items: usize,
+    /// only count items (long inputs): nothing is stored, accessors are not observed
+    pub count_only: bool,
 }
 
 fn observe_accessors<'s, T>(lex: &Lexer<'s, T>, src: &'s T::Source, anomalies: &mut Vec<String>)
@@ -185,8 +192,20 @@ where
                 obs.ended = true;
                 break;
             }
+            Some(r) if mode.count_only => {
+                if r.is_ok() {
+                    obs.n_ok += 1;
+                } else {
+                    obs.n_err += 1;
+                }
+            }
             Some(r) => {
                 let span = lex.span();
+                if r.is_ok() {
+                    obs.n_ok += 1;
+                } else {
+                    obs.n_err += 1;
+                }
                 match r {
                     Ok(t) => {
                         obs.items.push(Item { kind: Some(t.id()), start: span.start, end: span.end });
@@ -204,7 +223,9 @@ where
     if obs.ended {
         let sp = lex.span();
         obs.final_span = (sp.start, sp.end);
-        observe_accessors(&lex, src, &mut obs.anomalies);
+        if !mode.count_only {
+            observe_accessors(&lex, src, &mut obs.anomalies);
+        }
         if !mode.partial {
             obs.none_again = lex.next().is_none() && lex.next().is_none();
         } else {
